@@ -90,7 +90,8 @@ func runIncrementalTiling(c *vkit.Collector, rng *vkit.Rng, k int) {
 	} else {
 		for f := 0; f < 6; f++ {
 			if f == k%6 {
-				ids = append(ids, s2.CellIDFromFace(f).Children()[:]...)
+				ch := s2.CellIDFromFace(f).Children()
+				ids = append(ids, ch[:]...)
 			} else {
 				ids = append(ids, s2.CellIDFromFace(f))
 			}
